@@ -65,6 +65,18 @@ func DecodePicTimingHevcSEI(sd *SEIData, exPar HEVCPicTimingParams) (SEIMessage,
 				if pt.DuCommonCpbRemovalDelayFlag {
 					pt.DuCommonCpbRemovalDelayIncrementMinus1 = uint32(br.Read(int(exPar.DuCpbRemovalDelayIncrementLengthMinus1) + 1))
 				}
+				if br.AccError() != nil {
+					return nil, br.AccError()
+				}
+				// Every decoding unit takes at least one bit of payload
+				if uint64(pt.NumDecodingUnitsMinus1) >= 8*uint64(len(sd.Payload())) {
+					return nil, fmt.Errorf("num_decoding_units_minus1 %d too big for payload size %d",
+						pt.NumDecodingUnitsMinus1, len(sd.Payload()))
+				}
+				pt.NumNalusInDuMinus1 = make([]uint32, pt.NumDecodingUnitsMinus1+1)
+				if !pt.DuCommonCpbRemovalDelayFlag {
+					pt.DuCpbRemovalDelayIncrementMinus1 = make([]uint32, pt.NumDecodingUnitsMinus1)
+				}
 				for i := uint32(0); i <= pt.NumDecodingUnitsMinus1; i++ {
 					pt.NumNalusInDuMinus1[i] = uint32(readExpGolomb(br))
 					if !pt.DuCommonCpbRemovalDelayFlag && i < pt.NumDecodingUnitsMinus1 {
